@@ -155,3 +155,241 @@ Proof.
       destruct (Z.compare (dec_val a) (dec_val b)); reflexivity.
     + pose proof (dec_cmp_padded_val a b Wa Wb L ltac:(congruence)) as H. rewrite Na in H. exact H.
 Qed.
+
+(** * A total preorder on all byte lists that agrees with cmp_decimal on
+    well-formed ones *)
+Definition clamp (a : bytes) : bytes := map (fun x => N.min x 255) a.
+Definition dec_key (a : bytes) : Z := dec_val (clamp a).
+Definition cmp_dt : bytes -> bytes -> Z := cmp_key bytes dec_key.
+
+Lemma clamp_wf a : wf_bytes a -> clamp a = a.
+Proof.
+  induction 1 as [|x r Hx Hr IH]; cbn; [reflexivity|].
+  unfold clamp in IH. rewrite IH. f_equal. lia.
+Qed.
+
+Lemma cmp_dt_eq a b : wf_bytes a -> wf_bytes b -> cmp_decimal a b = cmp_dt a b.
+Proof.
+  intros Wa Wb. unfold cmp_dt, cmp_key, dec_key. rewrite (clamp_wf a Wa), (clamp_wf b Wb).
+  apply cmp_decimal_val; assumption.
+Qed.
+
+Definition dt_opp := cmp_key_opp bytes dec_key.
+Definition dt_trans := no_nan_trans bytes cmp_dt (cmp_key_trans bytes dec_key).
+Definition dt_nan := no_nan_nan bytes cmp_dt.
+
+(** * The order functions only look at comparisons between elements *)
+Section Congruence.
+  Variable V : Type.
+  Variables c1 c2 : V -> V -> Z.
+  Variable P : V -> Prop.
+  Hypothesis agree : forall a b, P a -> P b -> c1 a b = c2 a b.
+
+  Lemma no_adjacent_congr (f : Z -> bool) l : Forall P l ->
+    no_adjacent (fun a b => f (c1 a b)) l = no_adjacent (fun a b => f (c2 a b)) l.
+  Proof.
+    induction 1 as [|a l Ha Hl IH]; [reflexivity|].
+    destruct l as [|b t]; [reflexivity|]. rewrite !no_adjacent_cons, IH.
+    inversion Hl; subst. rewrite (agree a b) by assumption. reflexivity.
+  Qed.
+
+  Lemma ascending_congr l : Forall P l -> order_is_ascending c1 l = order_is_ascending c2 l.
+  Proof. apply (no_adjacent_congr (fun z => z >? 0)). Qed.
+  Lemma descending_congr l : Forall P l -> order_is_descending c1 l = order_is_descending c2 l.
+  Proof. apply (no_adjacent_congr (fun z => z <? 0)). Qed.
+
+  Lemma skip_streak_from_congr d0 : P d0 -> forall rest prev, Forall P rest ->
+    skip_streak_from c1 d0 prev rest = skip_streak_from c2 d0 prev rest.
+  Proof.
+    intros Pd. induction rest as [|x r IH]; intros prev F; cbn [skip_streak_from]; [reflexivity|].
+    inversion F; subst. rewrite (agree x d0) by assumption. rewrite IH by assumption. reflexivity.
+  Qed.
+
+  Lemma skip_streak_from_forall c d0 : forall rest prev, P prev -> Forall P rest ->
+    Forall P (skip_streak_from c d0 prev rest).
+  Proof.
+    induction rest as [|x r IH]; intros prev Pp F; cbn [skip_streak_from].
+    - constructor; [exact Pp|constructor].
+    - inversion F; subst. destruct (c x d0 =? 0); [apply IH; assumption|].
+      constructor; [exact Pp|exact F].
+  Qed.
+
+  Lemma order_of_streak_congr l : Forall P l -> order_of_streak c1 l = order_of_streak c2 l.
+  Proof.
+    intros F. unfold order_of_streak. destruct (length l <=? 1)%nat; [reflexivity|].
+    destruct l as [|d0 rest]; [reflexivity|]. inversion F; subst. cbn [skip_streak].
+    rewrite (skip_streak_from_congr d0 H1 rest d0 H2).
+    pose proof (skip_streak_from_forall c2 d0 rest d0 H1 H2) as FS.
+    destruct (skip_streak_from c2 d0 d0 rest) as [|a [|b t]]; try reflexivity.
+    inversion FS; subst. inversion H4; subst.
+    rewrite (agree a b) by assumption.
+    rewrite (ascending_congr (b :: t)), (descending_congr (b :: t)) by assumption. reflexivity.
+  Qed.
+
+  (* the min/max scan *)
+  Lemma bounds_fold_congr nan sw r : forall lo hi, P lo -> P hi -> Forall P r ->
+    fold_left (bounds_step c1 nan sw) r (lo, hi) = fold_left (bounds_step c2 nan sw) r (lo, hi).
+  Proof.
+    induction r as [|v r IH]; intros lo hi Pl Ph F; cbn [fold_left]; [reflexivity|].
+    inversion F; subst.
+    assert (E : bounds_step c1 nan sw (lo, hi) v = bounds_step c2 nan sw (lo, hi) v).
+    { unfold bounds_step. rewrite (agree v lo), (agree v hi) by assumption. reflexivity. }
+    rewrite E. unfold bounds_step. destruct (nan v); [apply IH; assumption|].
+    destruct (c2 v lo <? 0).
+    - destruct sw; [apply IH; assumption|]. destruct (c2 v hi >? 0); apply IH; assumption.
+    - destruct (c2 v hi >? 0); apply IH; assumption.
+  Qed.
+
+  Lemma skip_nan_forall nan l : Forall P l -> Forall P (skip_nan nan l).
+  Proof.
+    induction 1 as [|x l Hx Hl IH]; cbn [skip_nan]; [constructor|].
+    destruct (nan x); [exact IH|constructor; assumption].
+  Qed.
+
+  Lemma page_bounds_congr nan sw l : Forall P l ->
+    page_bounds c1 nan sw l = page_bounds c2 nan sw l.
+  Proof.
+    intros F. unfold page_bounds. destruct l as [|first rest]; [reflexivity|].
+    pose proof (skip_nan_forall nan _ F) as FS.
+    destruct (skip_nan nan (first :: rest)) as [|x r]; [reflexivity|].
+    inversion FS; subst. rewrite bounds_fold_congr by assumption. reflexivity.
+  Qed.
+End Congruence.
+
+(** * Binary DECIMAL columns *)
+Definition dec_page_ok (p : page_info bytes) : Prop :=
+  match pi_bounds p with
+  | Some (mn, mx) => wf_bytes mn /\ wf_bytes mx
+  | None => True
+  end.
+
+Lemma dec_entries_wf ps : Forall dec_page_ok ps ->
+  Forall wf_bytes (map (entry_min bytes [] (fun v => v)) ps) /\
+  Forall wf_bytes (map (entry_max bytes [] (fun v => v)) ps).
+Proof.
+  induction 1 as [|p ps Hp F [IH1 IH2]]; cbn [map]; [split; constructor|].
+  unfold dec_page_ok in Hp. unfold entry_min, entry_max at 2.
+  split; constructor; auto; unfold entry_max; unfold bytes in *;
+    destruct (pi_bounds p) as [[mn mx]|]; try tauto; constructor.
+Qed.
+
+Lemma dec_index_as_total limit ps : Forall dec_page_ok ps ->
+  index_byte BDecimal limit ps =
+  index_pages [] (fun v => v) (fun v => v) (order_of_streak cmp_dt) ps.
+Proof.
+  intros F. cbn [index_byte]. rewrite !index_pages_maps.
+  destruct (dec_entries_wf ps F) as [F1 F2].
+  pose proof (order_of_streak_congr bytes cmp_decimal cmp_dt wf_bytes cmp_dt_eq _ F1) as E1.
+  pose proof (order_of_streak_congr bytes cmp_decimal cmp_dt wf_bytes cmp_dt_eq _ F2) as E2.
+  unfold bytes in *. rewrite E1, E2. reflexivity.
+Qed.
+
+Lemma order_of_streak_dt_sound : order_sound bytes cmp_dt (order_of_streak cmp_dt).
+Proof.
+  exact (order_of_streak_sound bytes cmp_dt no_nan dt_opp dt_trans dt_nan (fun _ => eq_refl)).
+Qed.
+
+Theorem decimal_order_claim_true limit ps : Forall dec_page_ok ps ->
+  order_claim_true bytes cmp_dt (index_byte BDecimal limit ps).
+Proof.
+  intros F. rewrite (dec_index_as_total limit ps F).
+  exact (boundary_order_true bytes cmp_dt no_nan dt_opp dt_trans dt_nan _ _ _ (order_of_streak cmp_dt)
+           order_of_streak_dt_sound (order_of_streak_range bytes cmp_dt)
+           (fun l _ => forall_const_false bytes l) ps).
+Qed.
+
+(* the claim, in the comparison of the library and in integers *)
+Theorem decimal_boundary_order_nonnull limit ps : Forall dec_page_ok ps ->
+  let ci := index_byte BDecimal limit ps in
+  (ci_order ci = 1 -> ascending_nonnull bytes cmp_decimal (to_search_index ci)) /\
+  (ci_order ci = 2 -> ascending_nonnull bytes (fun a b => cmp_decimal b a) (to_search_index ci)).
+Proof.
+  intros F. cbv zeta. pose proof (decimal_order_claim_true limit ps F) as H.
+  assert (W : forall i mn mx, nth_error (to_search_index (index_byte BDecimal limit ps)) i = Some (Some (mn, mx)) ->
+              wf_bytes mn /\ wf_bytes mx).
+  { intros i mn mx Hi. rewrite (dec_index_as_total limit ps F), index_pages_maps in Hi.
+    unfold to_search_index in Hi. cbn [ci_null_pages ci_min_values ci_max_values] in Hi.
+    apply (search_index_nth bytes) in Hi. destruct Hi as (_ & H1 & H2).
+    destruct (dec_entries_wf ps F) as [F1 F2]. rewrite Forall_forall in F1, F2.
+    split; [apply F1|apply F2]; eapply nth_error_In; eauto. }
+  split; intros E.
+  - pose proof (claim_gives_ascending_nonnull bytes cmp_dt _ H E) as A.
+    intros i j mi xi mj xj Hij Hi Hj. destruct (A i j mi xi mj xj Hij Hi Hj) as [A1 A2].
+    destruct (W i mi xi Hi), (W j mj xj Hj). rewrite !cmp_dt_eq by assumption. auto.
+  - pose proof (claim_gives_descending_nonnull bytes cmp_dt _ H E) as A.
+    intros i j mi xi mj xj Hij Hi Hj. destruct (A i j mi xi mj xj Hij Hi Hj) as [A1 A2].
+    unfold flip in A1, A2. destruct (W i mi xi Hi), (W j mj xj Hj).
+    rewrite !cmp_dt_eq by assumption. auto.
+Qed.
+
+(* decimalPage.Bounds / decimalDictionary.Bounds *)
+Theorem decimal_page_bounds_sound sw (l : list bytes) mn mx :
+  Forall wf_bytes l -> page_bounds cmp_decimal (fun _ => false) sw l = Some (mn, mx) ->
+  (forall v, In v l -> cmp_decimal mn v <= 0 /\ cmp_decimal v mx <= 0) /\ In mn l /\ In mx l.
+Proof.
+  intros F H. rewrite (page_bounds_congr bytes cmp_decimal cmp_dt wf_bytes cmp_dt_eq _ sw l F) in H.
+  destruct (page_bounds_sound bytes cmp_dt no_nan dt_opp dt_trans dt_nan sw l mn mx H) as (W & I1 & I2 & _).
+  rewrite Forall_forall in F. split; [|auto]. intros v Hv.
+  destruct (W v Hv eq_refl) as [H1 H2]. rewrite !cmp_dt_eq by auto. auto.
+Qed.
+
+Lemma non_nulls_wf (vals : list (option bytes)) :
+  (forall x, In (Some x) vals -> wf_bytes x) -> Forall wf_bytes (non_nulls vals).
+Proof.
+  intros H. apply Forall_forall. intros x Hx. apply H.
+  clear H. induction vals as [|[y|] r IH]; cbn in *; [destruct Hx| |].
+  - destruct Hx as [->|Hx]; [left; reflexivity|right; auto].
+  - right. auto.
+Qed.
+
+Lemma dec_page_of_values_total sw (vals : list (option bytes)) :
+  (forall x, In (Some x) vals -> wf_bytes x) ->
+  page_of_values cmp_decimal (fun _ => false) sw vals = page_of_values cmp_dt no_nan sw vals.
+Proof.
+  intros H. unfold page_of_values.
+  rewrite (page_bounds_congr bytes cmp_decimal cmp_dt wf_bytes cmp_dt_eq _ sw _ (non_nulls_wf vals H)).
+  reflexivity.
+Qed.
+
+Lemma dec_page_of_values_ok sw (vals : list (option bytes)) :
+  (forall x, In (Some x) vals -> wf_bytes x) -> dec_page_ok (page_of_values cmp_dt no_nan sw vals).
+Proof.
+  intros H. unfold dec_page_ok, page_of_values. cbn [pi_bounds].
+  destruct (page_bounds cmp_dt no_nan sw (non_nulls vals)) as [[mn mx]|] eqn:B; [|exact I].
+  destruct (page_bounds_sound bytes cmp_dt no_nan dt_opp dt_trans dt_nan sw _ _ _ B) as (_ & I1 & I2 & _).
+  pose proof (non_nulls_wf vals H) as F. rewrite Forall_forall in F. auto.
+Qed.
+
+Theorem decimal_skip_safe sw limit (pages : list (list (option bytes))) p vals v :
+  (forall vs x, In vs pages -> In (Some x) vs -> wf_bytes x) ->
+  nth_error pages p = Some vals -> In (Some v) vals ->
+  may_skip cmp_decimal
+    (index_byte BDecimal limit (map (page_of_values cmp_decimal (fun _ => false) sw) pages)) p v = false.
+Proof.
+  intros Hw Hp Hv.
+  assert (E : map (page_of_values cmp_decimal (fun _ => false) sw) pages
+              = map (page_of_values cmp_dt no_nan sw) pages).
+  { apply map_ext_in. intros vs Hin. apply dec_page_of_values_total. intros x Hx. apply (Hw vs x Hin Hx). }
+  rewrite E.
+  assert (Fok : Forall dec_page_ok (map (page_of_values cmp_dt no_nan sw) pages)).
+  { rewrite Forall_map. apply Forall_forall. intros vs Hin. apply dec_page_of_values_ok.
+    intros x Hx. apply (Hw vs x Hin Hx). }
+  assert (R : forall x, cmp_dt x x <= 0).
+  { intros x. exact (cmp_refl bytes cmp_dt no_nan dt_opp dt_trans dt_nan x). }
+  pose proof (skip_safe bytes cmp_dt no_nan dt_opp dt_trans dt_nan [] (fun v => v) (fun v => v)
+                (order_of_streak cmp_dt) (order_of_streak_range bytes cmp_dt)
+                (fun l _ => forall_const_false bytes l) (fun _ => True)
+                (fun v _ => R v) (fun v _ => R v) sw pages p vals v Hp (fun _ _ => I) Hv eq_refl) as S.
+  rewrite (dec_index_as_total limit _ Fok).
+  destruct (dec_entries_wf _ Fok) as [F1 F2].
+  rewrite Forall_forall in F1, F2.
+  assert (Wv : wf_bytes v) by (apply (Hw vals v); [eapply nth_error_In; eauto|exact Hv]).
+  revert S. unfold may_skip. rewrite !index_pages_maps.
+  cbn [ci_null_pages ci_min_values ci_max_values]. unfold bytes in *.
+  match goal with |- context [nth_error ?l p] => destruct (nth_error l p) as [np|] end; [|auto].
+  match goal with |- context [nth_error ?l p] => destruct (nth_error l p) as [mn|] eqn:Emn end; [|auto].
+  match goal with |- context [nth_error ?l p] => destruct (nth_error l p) as [mx|] eqn:Emx end; [|auto].
+  assert (Wmn : wf_bytes mn) by (apply F1; eapply nth_error_In; eauto).
+  assert (Wmx : wf_bytes mx) by (apply F2; eapply nth_error_In; eauto).
+  rewrite !cmp_dt_eq by assumption. auto.
+Qed.
